@@ -1,11 +1,34 @@
-(* Extraction of the executable models to OCaml for the correspondence check.
-   Only ExtrOcamlBasic is used: bool, option, unit, list, prod, sumbool, sumor map to
-   their OCaml counterparts; nat, positive, N, Z stay the Coq inductive types. *)
-From Coq Require Import ZArith.
-From Trzsz Require Import Base.Bytes Model.Escape.
+(* ASSEMBLED by bin/check from coq/extract.d/*.txt. Extraction of the executable models to OCaml
+   for the correspondence check.  Only ExtrOcamlBasic is used: bool, option, unit, list, prod,
+   sumbool, sumor map to their OCaml counterparts; nat, positive, N, Z stay Coq inductive types. *)
+Require Import Coq.ZArith.ZArith.
+Require Import Trzsz.Model.Escape.
 Require Extraction.
 Require Import ExtrOcamlBasic.
 Extraction "model.ml"
-  Z.add Z.mul Z.div Z.modulo Z.opp Z.of_N Z.to_N N.to_nat N.of_nat Z.of_nat Z.to_nat
-  Escape.escape Escape.unescape_data Escape.er_run Escape.er_fuel Escape.ew_write
-  Escape.table_of_json Escape.builtin_table Escape.esc_code Escape.unesc_code.
+  Z.add
+  Z.mul
+  Z.div
+  Z.modulo
+  Z.opp
+  Z.of_N
+  Z.to_N
+  N.to_nat
+  N.of_nat
+  Z.of_nat
+  Z.to_nat
+  Z.sub
+  N.add
+  N.mul
+  N.sub
+  N.div
+  N.modulo
+  Escape.escape
+  Escape.unescape_data
+  Escape.er_run
+  Escape.er_fuel
+  Escape.ew_write
+  Escape.table_of_json
+  Escape.builtin_table
+  Escape.esc_code
+  Escape.unesc_code.
